@@ -39,23 +39,26 @@ Definition allowedb (r : result) (gone_at_end : bool) : bool :=
 Definition ok_self (r : res) : bool := match r with Ok _ | Err EACCES | Err EPERM => true | _ => false end.
 Definition ok_other (r : res) : bool := match r with Err EINVAL => false | _ => true end.
 Definition is_ok (r : res) : bool := match r with Ok _ => true | _ => false end.
-Definition base_ok (opt : label -> bool) (w : world) : Prop :=
+Definition ok_class (o : oclass) (r : res) : bool :=
+  match o with Strict => ok_self r | MayVanish => ok_other r | MayVanishOrInval => true end.
+Definition base_ok (opt : label -> oclass) (w : world) : Prop :=
   forall g l cur,
     match rwho w l cur with
     | Global => is_ok (w_base w g (l_kind l) Global (l_file l) cur) = true
-    | Self => opt l = false -> ok_self (w_base w g (l_kind l) Self (l_file l) cur) = true
-    | Other => opt l = false -> ok_other (w_base w g (l_kind l) Other (l_file l) cur) = true
+    | Self => ok_class (opt l) (w_base w g (l_kind l) Self (l_file l) cur) = true
+    | Other => ok_class (opt l) (w_base w g (l_kind l) Other (l_file l) cur) = true
     | Any => True
     end.
 
 (* optional / racing files.
    live process: a descriptor may be closed, a thread may exit, and smaps_rollup may report
    ESRCH/ENOENT for a live process (psutil/_pslinux.py says so) at any moment *)
-Definition opt_race (l : label) : bool :=
-  match l_file l with FFdE | FFdinfoE | FTaskStatE | FRollup => true | _ => false end.
+Definition opt_none (l : label) : oclass := Strict.
+Definition opt_race (l : label) : oclass :=
+  match l_file l with FFdE => MayVanishOrInval | FFdinfoE | FTaskStatE | FRollup => MayVanish | _ => Strict end.
 (* kernel thread / zombie: in addition the exe and cwd links report ENOENT while the process is listed *)
-Definition opt_links (l : label) : bool :=
-  match l_file l with FExe | FCwd => true | _ => opt_race l end.
-(* cwd only (what is left when exe is set aside) *)
-Definition opt_cwd (l : label) : bool :=
-  match l_file l with FCwd => true | _ => opt_race l end.
+Definition opt_links (l : label) : oclass :=
+  match l_file l with FExe | FCwd => MayVanish | _ => opt_race l end.
+(* exe only: a kernel thread (its cwd link is there) *)
+Definition opt_exe (l : label) : oclass :=
+  match l_file l with FExe => MayVanish | _ => opt_race l end.
